@@ -59,11 +59,19 @@ void spifconf_init_subsystem(void)
 /* a previous free left no variable list behind (init itself does not reset spifconf_vars) */
 __CPROVER_requires(spifconf_vars == NULL)
 __CPROVER_assigns(context, ctx_idx, ctx_cnt, ctx_state, ctx_state_idx, ctx_state_cnt, fstate, fstate_idx, fstate_cnt, builtins, builtin_idx, builtin_cnt)
+#ifdef U_CYCLE   /* callee role: the four tables are fresh blocks (is_fresh allocates when the contract stands for the call) */
+__CPROVER_ensures(CTXTAB_INV && CTXSTK_INV && FSTK_INV && BLTTAB_INV)
+#else
 __CPROVER_ensures(CTXTAB_POST && CTXSTK_POST && FSTK_POST && BLTTAB_POST)
+#endif
 __CPROVER_ensures(ctx_idx == 0 && ctx_state_idx == 0 && fstate_idx == 0 && builtin_idx == 7)
 __CPROVER_ensures(ctx_cnt == 20 && ctx_state_cnt == 20 && fstate_cnt == 10 && builtin_cnt == 10)
 /* slot 0 is the built-in "null" context; the bottom of the context stack refers to it with no state */
+#ifdef U_CYCLE
+__CPROVER_ensures(__CPROVER_is_fresh(context[0].name, 5) && context[0].name[4] == 0 && context[0].handler == parse_null)
+#else
 __CPROVER_ensures(context[0].name != NULL && __CPROVER_r_ok(context[0].name, 5) && context[0].name[4] == 0 && context[0].handler == parse_null)
+#endif
 __CPROVER_ensures(ctx_state[0].ctx_id == 0 && ctx_state[0].state == NULL)
 /* every registered built-in has a name and a function; the table is terminated by a NULL name (shell_expand's scan) */
 __CPROVER_ensures(!(vg_k < 7) || (builtins[vg_k].name != NULL && builtins[vg_k].ptr != NULL))
